@@ -21,7 +21,8 @@ LEVEL = "exploration"
 RULE = (
     "cases = (number of workers 2-5, 60-400 announced ids with random origin, burst or paced, chunk plan per link in "
     "each direction: aligned 32 | fixed size k for every k in 1..63 (all of them in thorough, a seeded dozen in quick) | "
-    "random sizes 1-100 | coalesce 2-8 ids | per-byte dribble; delays; optionally one peer reset mid-id or mid-stream). "
+    "random sizes 1-100 | coalesce 2-8 ids | per-byte dribble; delays; optionally one peer reset mid-id or mid-stream, in the "
+    "server->worker or the worker->server direction (a worker dying while it announces); kinds regular / ephemeral / replaceable). "
     "Non-trivial = a case in which at least one link delivered a chunk that is not a multiple of 32 bytes, or a peer was "
     "reset, and ids were announced afterwards. Distinct = distinct (workers, plan per link, reset)."
 )
@@ -46,6 +47,7 @@ def plan(tier, seed):
     for i in range(0, len(plans), per):
         out.append({"plans": plans[i:i + per], "case_seed": seed * 7919 + i, "ids": 80 if tier == "quick" else 300})
     out.append({"plans": [("reset", 40), ("reset-mid-id", 50)], "case_seed": seed * 7919 + 999, "ids": 120})
+    out.append({"plans": [("reset-mid-id-up", 60)], "case_seed": seed * 7919 + 998, "ids": 120})
     return out
 
 
@@ -68,6 +70,8 @@ class Link:
         self.misaligned = 0
         self.writers = []
         self.reset_at = None
+        self.reset_at_up = None  # cut the worker->server direction after this many bytes (the worker dies mid-id)
+        self.bytes_up = 0
         self.was_reset = False
         self.server = None
 
@@ -116,8 +120,9 @@ class Link:
                     if self.plan[0] == "coalesce" and len(buf) < n and len(buf) % 32 == 0:
                         n = len(buf)
                     chunk, buf = buf[:n], buf[n:]
-                    if down and self.reset_at is not None and self.bytes_down + len(chunk) >= self.reset_at and not self.was_reset:
-                        cut = max(0, self.reset_at - self.bytes_down)
+                    limit, sofar = (self.reset_at, self.bytes_down) if down else (self.reset_at_up, self.bytes_up)
+                    if limit is not None and sofar + len(chunk) >= limit and not self.was_reset:
+                        cut = max(0, limit - sofar)
                         if cut:
                             writer.write(chunk[:cut])
                             await writer.drain()
@@ -135,6 +140,8 @@ class Link:
                         self.bytes_down += len(chunk)
                         if len(chunk) % 32:
                             self.misaligned += 1
+                    else:
+                        self.bytes_up += len(chunk)
                     self.pending -= len(chunk)
                     if self.plan[0] in ("fixed", "dribble", "random"):
                         await asyncio.sleep(0)
@@ -196,7 +203,10 @@ async def run_case(nworkers, plan_, nids, counters, seed):
                 kind = plan_ if w == 1 else ("aligned", 32)
             link = Link(lp, sport, kind, random.Random(seed * 10 + w), counters)
             if plan_[0].startswith("reset") and w == 1:
-                link.reset_at = 32 * 20 + (13 if plan_[0] == "reset-mid-id" else 0)
+                if plan_[0] == "reset-mid-id-up":
+                    link.reset_at_up = 32 * 4 + 13
+                else:
+                    link.reset_at = 32 * 20 + (13 if plan_[0] == "reset-mid-id" else 0)
                 reset_worker = w
             await link.start()
             links.append(link)
@@ -233,7 +243,7 @@ async def run_case(nworkers, plan_, nids, counters, seed):
                               "replay": {"workers": nworkers, "plan": list(plan_), "ids": nids, "seed": seed}})
             st.notifier.start()
             c = rig.connect("sub%d" % w, storage=st)
-            await c.cmd(["REQ", "s", {"kinds": [1], "since": gen.T0 + 1}])
+            await c.cmd(["REQ", "s", {"kinds": [1, 20001, 29999, 10002, 30023], "since": gen.T0 + 1}])
             subs.append(c)
         await asyncio.sleep(0.1)
         await rig.quiesce()
@@ -248,7 +258,10 @@ async def run_case(nworkers, plan_, nids, counters, seed):
             origin = r.randrange(nworkers)
             if reset_worker is not None and origin == reset_worker and links[reset_worker].was_reset:
                 origin = 0
-            ev = ref.make_event(key, kind=1, created_at=gen.T0 + 10 + i, content="n%d-%d" % (seed, i))
+            kind = r.choice([1, 1, 1, 1, 20001, 29999, 30023, 30023])  # regular, ephemeral (the SQL store keeps them until collected), parameterized with a fresh d each (nothing is superseded before the receivers look it up)
+            ev = ref.make_event(key, kind=kind, created_at=gen.T0 + 10 + i, tags=[["d", "n%d" % i]] if kind == 30023 else [], content="n%d-%d" % (seed, i))
+            counters.setdefault("kinds_announced", {})
+            counters["kinds_announced"][str(kind)] = counters["kinds_announced"].get(str(kind), 0) + 1
             after = reset_worker is not None and links[reset_worker].was_reset
             n0 = rig.rec.n
             await pubs[origin].cmd(["EVENT", ev])
@@ -256,7 +269,7 @@ async def run_case(nworkers, plan_, nids, counters, seed):
             if not oks or oks[-1][1][2] is not True:
                 viols.append({"key": "announcing-worker-refused-event", "msg": "worker %d answered %s to a valid EVENT (after earlier notifier trouble?)" % (origin, oks[-1][1][2:] if oks else None),
                               "replay": {"workers": nworkers, "plan": list(plan_), "ids": nids, "seed": seed}})
-            produced.append((ev["id"], origin, after))
+            produced.append((ev["id"], origin, after, kind))
             if not burst or i % 17 == 0:
                 await asyncio.sleep(0.001)
         # drain
@@ -291,7 +304,7 @@ async def run_case(nworkers, plan_, nids, counters, seed):
             for n, f in subs[w].parsed_frames():
                 if isinstance(f, list) and len(f) > 2 and f[0] == "EVENT" and f[1] == "s":
                     pushes[f[2]["id"]] = pushes.get(f[2]["id"], 0) + 1
-            for eid, origin, after in produced:
+            for eid, origin, after, kind in produced:
                 if reset_worker is not None and not after:
                     continue  # ids in flight around the reset are not judged
                 counters["deliveries_checked"] = counters.get("deliveries_checked", 0) + 1
@@ -300,12 +313,12 @@ async def run_case(nworkers, plan_, nids, counters, seed):
                     if c:
                         viols.append({"key": "echoed-to-origin", "msg": "worker %d got its own announcement of %s back %d time(s)" % (w, eid[:10], c), "replay": rp})
                 elif c != 1:
-                    viols.append({"key": "%s/%s" % ("lost-id" if c == 0 else "duplicated-id", "after-peer-reset" if reset_worker is not None else plan_[0]),
+                    viols.append({"key": "%s/%s%s" % ("lost-id" if c == 0 else "duplicated-id", "after-peer-reset" if reset_worker is not None else plan_[0], kclass(kind)),
                                   "msg": "worker %d (plan %s) got the id %s announced by worker %d %d times" % (w, links[w].plan, eid[:10], origin, c), "replay": rp})
                 counters["pushes_checked"] = counters.get("pushes_checked", 0) + 1
                 p = pushes.get(eid, 0)
                 if p != 1:
-                    viols.append({"key": "subscriber-push/%s/%s" % ("missed" if p == 0 else "duplicate", "after-peer-reset" if reset_worker is not None else plan_[0]),
+                    viols.append({"key": "subscriber-push/%s/%s%s" % ("missed" if p == 0 else "duplicate", "after-peer-reset" if reset_worker is not None else plan_[0], kclass(kind)),
                                   "msg": "subscriber on worker %d got event %s (origin %d) %d times" % (w, eid[:10], origin, p), "replay": rp})
     finally:
         for l in links:
@@ -323,6 +336,10 @@ async def run_case(nworkers, plan_, nids, counters, seed):
             server._task.cancel()
         await rig.close()
     return viols, nontrivial
+
+
+def kclass(kind):
+    return "" if kind == 1 else ("/ephemeral-kind" if 20000 <= kind < 30000 else "/replaceable-kind")
 
 
 def run_shard(spec):
